@@ -282,7 +282,9 @@ func (r *UnitRun) needDomain(name string) {
 func (r *UnitRun) needProd() {
 	r.needNamed("prod", `(declare-fun prod ((Array Int Int) Int Int) Int)
 (assert (forall ((a (Array Int Int)) (lo Int) (hi Int)) (! (=> (<= hi lo) (= (prod a lo hi) 1)) :pattern ((prod a lo hi)))))
-(assert (forall ((a (Array Int Int)) (lo Int) (hi Int)) (! (=> (> hi lo) (= (prod a lo hi) (* (prod a lo (- hi 1)) (select a (- hi 1))))) :pattern ((prod a lo hi)))))`)
+(assert (forall ((a (Array Int Int)) (lo Int) (hi Int)) (! (=> (> hi lo) (= (prod a lo hi) (* (prod a lo (- hi 1)) (select a (- hi 1))))) :pattern ((prod a lo hi)))))
+(assert (forall ((a (Array Int Int)) (b (Array Int Int)) (lo Int) (hi Int)) (! (=> (forall ((k Int)) (=> (and (<= lo k) (< k hi)) (= (select a k) (select b k)))) (= (prod a lo hi) (prod b lo hi))) :pattern ((prod a lo hi) (prod b lo hi)))))`)
+	r.assumption("PROD-EXT (paper lemma): sequences that agree on [lo,hi) have the same product over [lo,hi)")
 }
 
 func (r *UnitRun) needSum() {
@@ -507,6 +509,7 @@ func (r *UnitRun) applyContractSelf(st *State, callee *Unit, recv *Val, args []V
 	if !callee.HasSpec {
 		panic(toolLimit("callee " + callee.Name + " has no contract"))
 	}
+	r.callees[callee.Name] = true
 	recvName, params, results := callee.paramNames()
 	bound := map[string]Val{}
 	if recv != nil && recvName != "" {
@@ -589,6 +592,10 @@ func (r *UnitRun) applyContractSelf(st *State, callee *Unit, recv *Val, args []V
 	env2 := &SpecEnv{run: r, st: st, old: pre, bound: bound}
 	for _, c := range callee.Ensures {
 		st.assume(r.specBool(env2, c, "ensures of "+callee.Name))
+	}
+	for _, c := range callee.Trusted {
+		st.assume(r.specBool(env2, c, "trusted clause of "+callee.Name))
+		r.assumption("trusted postcondition of " + callee.Name + " (paper lemma, not proved from the body): " + c.Text)
 	}
 	switch len(outs) {
 	case 0:
